@@ -4,6 +4,7 @@
   checked by evaluation (`decide`).
 -/
 import Ctrmml.Proofs.LayoutLines
+import Ctrmml.Proofs.LayoutBlockLines
 namespace Ctrmml.Mml
 open Ctrmml.Tables Ctrmml.Lexer Ctrmml.TrackBuilder
 open Ctrmml.MmlMeaning (Num Dur Acc Cmd)
@@ -129,5 +130,46 @@ instance decLinesOk (ids : List Nat) : (r : Bool) → (ls : List LLine) → Deci
   | r, l :: ls =>
     have := decLinesOk ids (r || l.isHdr) ls
     inferInstanceAs (Decidable (LineOk ids l ∧ (l.isCont = true → r = true) ∧ LinesOk ids (r || l.isHdr) ls))
+
+/-! ### bodies with blocks -/
+
+instance decCmdStart (c : Nat) : Decidable (CmdStart c) := inferInstanceAs (Decidable (_ ∨ _))
+instance decStop (c : Nat) : Decidable (Stop c) := inferInstanceAs (Decidable (_ ∨ _))
+
+instance decStopEnd : (e : List Nat) → Decidable (StopEnd e)
+  | [] => isTrue (Or.inl rfl)
+  | c :: r =>
+    if h : Stop c then isTrue (Or.inr ⟨c, r, rfl, h⟩)
+    else isFalse (fun hh => by
+      rcases hh with hh | ⟨c', r', hh, hc⟩
+      · cases hh
+      · simp at hh; exact h (hh.1 ▸ hc))
+
+instance decClean (l : List Nat) : Decidable (Clean l) :=
+  inferInstanceAs (Decidable (∀ x ∈ l, x ≠ 0 ∧ x ≠ 47 ∧ x ≠ 59 ∧ x ≠ 125 ∧ x < 128))
+
+instance decItemsOk (i : Nat) : (items : List Item) → (e : List Nat) → Decidable (ItemsOk i items e)
+  | [], _ => isTrue trivial
+  | .toks ts :: rest, e =>
+    have := decItemsOk i rest e
+    inferInstanceAs (Decidable (ToksOk ts (itemsText rest e) ∧ StopEnd (itemsText rest e) ∧ ItemsOk i rest e))
+  | .block alts :: rest, e =>
+    have := decItemsOk i rest e
+    inferInstanceAs (Decidable (i < alts.length ∧ (∀ a ∈ alts, Clean (altText a)) ∧
+      ToksOk (alts.getD i []) (afterText (alts.drop (i + 1)) (itemsText rest e)) ∧ ItemsOk i rest e))
+
+instance decBLineOk (ids : List Nat) : (l : BLine) → Decidable (BLineOk ids l)
+  | .hdr as b items e => inferInstanceAs (Decidable (as ≠ [] ∧ HeaderOk as ∧ as.map Addr.id = ids ∧ (b = 32 ∨ b = 9) ∧
+      (∀ j, j < ids.length → ItemsOk j items e) ∧ EndOk e ∧ Bytes (headerBytes as ++ b :: itemsText items e)))
+  | .cont b items e => inferInstanceAs (Decidable ((b = 32 ∨ b = 9) ∧ (∀ j, j < ids.length → ItemsOk j items e) ∧ EndOk e ∧
+      Bytes (b :: itemsText items e)))
+  | .empty => isTrue trivial
+  | .comment _ => isTrue trivial
+
+instance decBLinesOk (ids : List Nat) : (r : Bool) → (ls : List BLine) → Decidable (BLinesOk ids r ls)
+  | _, [] => isTrue trivial
+  | r, l :: ls =>
+    have := decBLinesOk ids (r || l.isHdr) ls
+    inferInstanceAs (Decidable (BLineOk ids l ∧ (l.isCont = true → r = true) ∧ BLinesOk ids (r || l.isHdr) ls))
 
 end Ctrmml.Mml
